@@ -26,7 +26,13 @@ def single_jobs(name, nshards_quick=1, nshards_thorough=1, extra=None):
         if not bn:
             return None
         n = nshards_thorough if tier == 'thorough' else nshards_quick
-        return [_job('single:' + name, bn, ['--prop', prop, '--tier', tier, '--seed', str(seed), '--shard', '%d/%d' % (i, n)] + (extra or []),
+        ex = list(extra or [])
+        # the pre-built quick binaries finish in a few seconds: the quick tier spends three times the thorough tier's
+        # per-shard scale on random sequences (still well under a minute)
+        if tier == 'quick' and '--scale' in ex:
+            k = ex.index('--scale') + 1
+            ex[k] = str(int(ex[k]) * 3)
+        return [_job('single:' + name, bn, ['--prop', prop, '--tier', tier, '--seed', str(seed), '--shard', '%d/%d' % (i, n)] + ex,
                      '%s%02d' % (name, i)) for i in range(n)]
     return f
 
